@@ -132,8 +132,9 @@ public:
             pop_item();
             if (p) return p;
         }
+        //skip entries already canceled (they stay in the heap with an empty promise until they surface)
         SchVector::iterator iter = std::find_if(_scheduled.begin(), _scheduled.end(),[&](const SchItem &x) {
-            return x._ident == id;
+            return x._ident == id && x._p;
         });
         if (iter == _scheduled.end()) return {};
         return std::move(iter->_p);
